@@ -36,6 +36,11 @@ func c12Scenarios(thorough bool) []cmdScn {
 		Calls: []callSpec{{Key: p1, Cmd: 0x8104, TimeoutMs: 3000}, {Key: p2, Cmd: 0x8801, TimeoutMs: 3000}}})
 	out = append(out, cmdScn{Name: "c12:2x2:one-silent", Terms: []termSpec{{Phone: p1, Behaviour: "never", Expect: 1}, {Phone: p2, Behaviour: "inorder", Expect: 1, PreHB: 2}},
 		Calls: []callSpec{{Key: p1, Cmd: 0x9101, TimeoutMs: 100}, {Key: p2, Cmd: 0x9205, TimeoutMs: 3000}}})
+	// one caller sending sequentially, re-using a single ActiveMessage object, first command with a short timeout
+	out = append(out, cmdScn{Name: "c12:seq-reuse", Terms: []termSpec{{Phone: p1, Behaviour: "prompt", Expect: 2}},
+		SeqCalls: [][]callSpec{{{Key: p1, Cmd: 0x8104, TimeoutMs: 50}, {Key: p1, Cmd: 0x8801, TimeoutMs: 3000}}}})
+	out = append(out, cmdScn{Name: "c12:seq-reuse-3", Terms: []termSpec{{Phone: p1, Behaviour: "prompt", Expect: 3, PreHB: 1}},
+		SeqCalls: [][]callSpec{{{Key: p1, Cmd: 0x9101, TimeoutMs: 10}, {Key: p1, Cmd: 0x8103, TimeoutMs: 20}, {Key: p1, Cmd: 0x9205, TimeoutMs: 5000}}}})
 	// absent key next to an online one
 	out = append(out, cmdScn{Name: "c12:absent-key", Terms: []termSpec{{Phone: p1, Behaviour: "inorder", Expect: 1}},
 		Calls: []callSpec{{Key: p1, Cmd: 0x8104, TimeoutMs: 3000}, {Key: "nobody", Cmd: 0x8104, TimeoutMs: 3000}}})
@@ -104,9 +109,9 @@ func init() {
 	drv := map[string]func(json.RawMessage) string{"cmd": cmdReplay}
 	vc.Register(&vc.Check{
 		ID: "C12", Level: "model_checking", SingleProc: true,
-		Rule: "real server + scripted terminals + 1..2 (thorough 3) concurrent SendActiveMessage callers with commands from {8103,8104,8801,9101,9205,9206}; terminal behaviours {in order, reverse, only the second, first twice, unknown serial, never, late (after the timers)}, optional heartbeat/location noise, one and two terminals, an absent key; " +
+		Rule: "real server + scripted terminals + 1..2 (thorough 3) concurrent SendActiveMessage callers with commands from {8103,8104,8801,9101,9205,9206}; terminal behaviours {in order, reverse, only the second, first twice, unknown serial, never, late (after the timers)}, optional heartbeat/location noise, one and two terminals, an absent key, a caller that sends sequentially re-using one ActiveMessage object; " +
 			"ALL schedules within the deviation bound (2 quick, 3 thorough), timers are scheduler events that may fire at any point (firing ahead of a runnable thread is a deviation). Non-trivial = schedule with >=1 deviation",
-		Assumptions: []string{"timeouts are decided as events, no wall clock; 'response or timeout' is all that is demanded when a timer fires early, except in executions without early timers, where an answered command must see its answer",
+		Assumptions: []string{"timeouts are decided as events, no wall clock (a timeout must not come before the command's own duration has elapsed in virtual time); 'response or timeout' is all that is demanded when a timer fires early, except in executions without early timers, where an answered command must see its answer",
 			"platform-serial wrap between two outstanding commands is not reachable without 65535 preceding frames and is covered only by C06's wrap run"},
 		Run: run(c12Scenarios), Drivers: drv,
 	})
